@@ -41,6 +41,8 @@ type Config struct {
 	Dir      string    // /verif (known_findings.txt lives here)
 	Out      string    // where evidence/ and replays/ are written (VERIF_OUT, default Dir)
 	Extra    map[string]string
+	// NoEvidence: an auxiliary pass (e.g. the race pass) that must not rewrite the evidence file
+	NoEvidence bool
 }
 
 // Quick reports whether the quick tier runs.
@@ -294,8 +296,8 @@ func finish(cfg *Config, rep *Report) int {
 		knownLines = append(knownLines, line)
 		fmt.Println(line)
 	}
-	if cfg.Replay != "" {
-		// a replay run reports but does not rewrite the evidence
+	if cfg.Replay != "" || cfg.NoEvidence {
+		// a replay run / auxiliary pass reports but does not rewrite the evidence
 		return exit
 	}
 	// evidence
